@@ -123,7 +123,7 @@ def run(ctx):
         jobs = [("replay", case["script"], case["cfg"])]
         traces = [c08_limits.run_job(jobs[0])]
     else:
-        ctx.model("MC_RendererLimits", "MC_RendererLimits_quick.cfg" if quick else "MC_RendererLimits_thorough.cfg", workers=1 if quick else 16)
+        ctx.model("MC_RendererLimits", "MC_RendererLimits_quick.cfg" if quick else "MC_RendererLimits_thorough.cfg", workers=1)
         scripts = gen_scripts(ctx, 60 if quick else 400, ctx.seed + 1)
         jobs, used = make_jobs(ctx, scripts, 2 if quick else 16)
         ctx.extra["messages"] = used
